@@ -23,6 +23,8 @@ pub enum SyncEvent {
     CfgAcquired,
     /// Config mutex about to be released.
     CfgRelease,
+    /// About to try_lock the update mutex.
+    UpdBefore,
     /// try_lock on the update mutex returned; `true` if acquired.
     UpdTry(bool),
     /// Update mutex about to be released.
